@@ -118,8 +118,8 @@ Proof.
 Qed.
 
 (* the general update lemma: every group is either kept or re-proved *)
-Lemma JM_upd : forall b s s' m', J b s ->
-  a_main m' = a_main (mst s) -> Goodm m' ->
+Lemma JM_upd2 : forall b b' s s' m', J b s ->
+  a_main m' = b' -> Goodm m' ->
   (((forall i, inr16 i -> fkeep (fdt s' i) (fdt s i)) /\ a_fd m' = a_fd (mst s) /\
     a_fh m' = a_fh (mst s) /\ a_ck m' = a_ck (mst s)) \/ AgFd s' m') ->
   ((heap s' = heap s /\ a_tm m' = a_tm (mst s) /\ a_exp m' = a_exp (mst s)) \/ AgTm s' m') ->
@@ -133,9 +133,9 @@ Lemma JM_upd : forall b s s' m', J b s ->
   ((time s' = time s /\ time_valid s' = time_valid s /\ clock (kern s') = clock (kern s)) \/ SiTime s') ->
   ((tasks s' = tasks s /\ cur s' = cur s) \/ SiTk s') ->
   ((ev_reg s' = ev_reg s /\ ev_pending s' = ev_pending s /\ ev_batch s' = ev_batch s) \/ SiEv s') ->
-  FdI s' (-1) -> FdX s' -> JM b s' m'.
+  FdI s' (-1) -> FdX s' -> JM b' s' m'.
 Proof.
-  intros b s s' m' [AG SIv FD FX MN GD] M G H1 H2 H3 H4 H5 H6 H7 K1 K2 K3 K4 FD' FX'.
+  intros b b' s s' m' [AG SIv FD FX MN GD] M G H1 H2 H3 H4 H5 H6 H7 K1 K2 K3 K4 FD' FX'.
   apply Agree_groups in AG. destruct AG as (G1 & G2 & G3 & G4 & G5 & G6 & G7).
   apply SI_groups in SIv. destruct SIv as (S1 & S2 & S3 & S4).
   unfold JM. split; [|split; [|split; [assumption|split; [assumption|split; [congruence|assumption]]]]].
@@ -160,6 +160,27 @@ Proof.
     + destruct K4 as [(E1 & E2 & E3)|K4]; [|apply K4]. unfold SiEv. rewrite E1, E2, E3. apply S4.
 Qed.
 
+
+Lemma JM_upd : forall b s s' m', J b s ->
+  a_main m' = a_main (mst s) -> Goodm m' ->
+  (((forall i, inr16 i -> fkeep (fdt s' i) (fdt s i)) /\ a_fd m' = a_fd (mst s) /\
+    a_fh m' = a_fh (mst s) /\ a_ck m' = a_ck (mst s)) \/ AgFd s' m') ->
+  ((heap s' = heap s /\ a_tm m' = a_tm (mst s) /\ a_exp m' = a_exp (mst s)) \/ AgTm s' m') ->
+  ((tasks s' = tasks s /\ cur s' = cur s /\ a_tk m' = a_tk (mst s)) \/ AgTk s' m') ->
+  ((ev_reg s' = ev_reg s /\ ev_pending s' = ev_pending s /\ ev_batch s' = ev_batch s /\
+    a_ev m' = a_ev (mst s) /\ a_evp m' = a_evp (mst s)) \/ AgEv s' m') ->
+  ((rw_reg s' = rw_reg s /\ a_rw m' = a_rw (mst s)) \/ AgRw s' m') ->
+  ((quit s' = quit s /\ a_quit m' = a_quit (mst s)) \/ a_quit m' = quit s') ->
+  ((clock (kern s') = clock (kern s) /\ a_clk m' = a_clk (mst s)) \/ a_clk m' = clock (kern s')) ->
+  (heap s' = heap s \/ SiTm s') ->
+  ((time s' = time s /\ time_valid s' = time_valid s /\ clock (kern s') = clock (kern s)) \/ SiTime s') ->
+  ((tasks s' = tasks s /\ cur s' = cur s) \/ SiTk s') ->
+  ((ev_reg s' = ev_reg s /\ ev_pending s' = ev_pending s /\ ev_batch s' = ev_batch s) \/ SiEv s') ->
+  FdI s' (-1) -> FdX s' -> JM b s' m'.
+Proof.
+  intros b s s' m' Jh M. intros. apply (JM_upd2 b b s s' m' Jh); try assumption.
+  rewrite M. apply (j_main _ _ Jh).
+Qed.
 
 Lemma J_upd : forall b s s', J b s ->
   a_main (mst s') = a_main (mst s) -> Goodm (mst s') ->
